@@ -127,6 +127,13 @@ func TestVerifC11(t *testing.T) {
 			wn = append(wn, writers[i].name)
 		}
 		name := strings.Join(rn, "+") + " || " + strings.Join(wn, "+")
+		if sc.preload > 0 {
+			name += fmt.Sprintf(" [%d records stored first]", sc.preload)
+		} else if sc.preload < 0 {
+			name += fmt.Sprintf(" [%d records with 6 MB index keys stored first]", -sc.preload)
+		}
+		c11PreloadN = sc.preload
+		defer func() { c11PreloadN = 0 }()
 		distinct := map[string]bool{}
 		commitsSeen := false
 		var states []c11State
